@@ -282,11 +282,21 @@ func xgroupExtractor(args []string) []int {
 // These commands arrange arguments after STREAMS as "keys + ids", so the number
 // of keys is half of the remaining arguments.
 func streamsExtractor(args []string) []int {
+	// the options are walked as Redis does (xreadGetKeys) : the words behind GROUP, COUNT and BLOCK
+	// are values, a group or consumer called "streams" is not the keyword
 	marker := -1
-	for i, arg := range args {
-		if strings.EqualFold(arg, "streams") {
+	for i := 0; i < len(args) && marker == -1; i++ {
+		switch {
+		case strings.EqualFold(args[i], "streams"):
 			marker = i
-			break
+		case strings.EqualFold(args[i], "group"):
+			i += 2
+		case strings.EqualFold(args[i], "count"), strings.EqualFold(args[i], "block"):
+			i++
+		case strings.EqualFold(args[i], "noack"):
+		default:
+			// not an option : a syntax error, the command names no key
+			return nil
 		}
 	}
 	if marker == -1 || marker+2 > len(args) {
